@@ -146,7 +146,7 @@ func allEncodings(yield func(Enc)) {
 	for c := 0x20; c <= 0x7f; c++ {
 		yield(Enc{K: "text", G: string(rune(c))})
 	}
-	for _, g := range []string{"é", "É", "ф", "Ф", "宽", "😀", "é", "👩‍🚀", "Ａ"} {
+	for _, g := range []string{"é", "É", "ф", "Ф", "宽", "😀", "e\u0301", "👩‍🚀", "Ａ"} {
 		yield(Enc{K: "text", G: g})
 	}
 	for c := 0; c < 0x20; c++ {
